@@ -79,7 +79,7 @@ package tacquito
 //@   props C02
 //@   requires h != nil
 //@   ensures (err == nil) == valid.Header(*h)
-//@   ensures[C01] err == nil ==> wire.Header(*h, res)
+//@   ensures[C01,C02] err == nil ==> wire.Header(*h, res)
 //@   ensures err != nil ==> res == nil
 //@   ensures fresh(res)
 
@@ -113,7 +113,7 @@ package tacquito
 //@   props C02
 //@   requires a != nil
 //@   ensures (err == nil) == (valid.AuthenStart(*a) && fits.AuthenStart(*a))
-//@   ensures[C01] err == nil ==> wire.AuthenStart(*a, res)
+//@   ensures[C01,C02] err == nil ==> wire.AuthenStart(*a, res)
 //@   ensures err != nil ==> res == nil
 //@   ensures fresh(res)
 //@   ensures[C06] err == nil ==> res != nil && len(res) <= 4294967295
@@ -148,7 +148,7 @@ package tacquito
 //@   props C02
 //@   requires a != nil
 //@   ensures (err == nil) == (valid.AuthenReply(*a) && fits.AuthenReply(*a))
-//@   ensures[C01] err == nil ==> wire.AuthenReply(*a, res)
+//@   ensures[C01,C02] err == nil ==> wire.AuthenReply(*a, res)
 //@   ensures err != nil ==> res == nil
 //@   ensures fresh(res)
 //@   ensures[C06] err == nil ==> res != nil && len(res) <= 4294967295
@@ -178,7 +178,7 @@ package tacquito
 //@   props C02
 //@   requires a != nil
 //@   ensures (err == nil) == (valid.AuthenContinue(*a) && fits.AuthenContinue(*a))
-//@   ensures[C01] err == nil ==> wire.AuthenContinue(*a, res)
+//@   ensures[C01,C02] err == nil ==> wire.AuthenContinue(*a, res)
 //@   ensures err != nil ==> res == nil
 //@   ensures fresh(res)
 //@   ensures[C06] err == nil ==> res != nil && len(res) <= 4294967295
@@ -219,7 +219,7 @@ package tacquito
 //@   props C02
 //@   requires a != nil
 //@   ensures (err == nil) == (valid.AcctReply(*a) && fits.AcctReply(*a))
-//@   ensures[C01] err == nil ==> wire.AcctReply(*a, res)
+//@   ensures[C01,C02] err == nil ==> wire.AcctReply(*a, res)
 //@   ensures err != nil ==> res == nil
 //@   ensures fresh(res)
 //@   ensures[C06] err == nil ==> res != nil && len(res) <= 4294967295
@@ -247,7 +247,7 @@ package tacquito
 //@   requires p != nil
 //@   ensures[C02] err == nil ==> p.Header != nil && p.Body != nil && valid.Header(*p.Header)
 //@   ensures[C02] err == nil ==> p.Header.Length == len(p.Body)
-//@   ensures[C01] err == nil ==> wire.Packet(*p.Header, p.Body, res)
+//@   ensures[C01,C02] err == nil ==> wire.Packet(*p.Header, p.Body, res)
 //@   ensures err != nil ==> res == nil
 //@   ensures fresh(res)
 
@@ -294,7 +294,7 @@ package tacquito
 //@   props C02
 //@   requires a != nil
 //@   ensures (err == nil) == (valid.AuthorRequest(*a) && fits.AuthorRequest(*a))
-//@   ensures[C01] err == nil ==> wire.AuthorRequest(*a, res)
+//@   ensures[C01,C02] err == nil ==> wire.AuthorRequest(*a, res)
 //@   ensures err != nil ==> res == nil
 //@   ensures fresh(res)
 //@   ensures[C06] err == nil ==> res != nil && len(res) <= 4294967295
@@ -376,7 +376,7 @@ package tacquito
 //@   props C02
 //@   requires a != nil
 //@   ensures (err == nil) == (valid.AuthorReply(*a) && fits.AuthorReply(*a))
-//@   ensures[C01] err == nil ==> wire.AuthorReply(*a, res)
+//@   ensures[C01,C02] err == nil ==> wire.AuthorReply(*a, res)
 //@   ensures err != nil ==> res == nil
 //@   ensures fresh(res)
 //@   ensures[C06] err == nil ==> res != nil && len(res) <= 4294967295
@@ -461,7 +461,7 @@ package tacquito
 //@   props C02
 //@   requires a != nil
 //@   ensures (err == nil) == (valid.AcctRequest(*a) && fits.AcctRequest(*a))
-//@   ensures[C01] err == nil ==> wire.AcctRequest(*a, res)
+//@   ensures[C01,C02] err == nil ==> wire.AcctRequest(*a, res)
 //@   ensures err != nil ==> res == nil
 //@   ensures fresh(res)
 //@   ensures[C06] err == nil ==> res != nil && len(res) <= 4294967295
